@@ -1,8 +1,8 @@
 (* RunConformInitialWitness.v -- C01 on charts with <initial> elements and deep / multiple initial attributes: the
    hypotheses of run_conforms_initial are satisfiable by a non-trivial document, none of the new static conditions
-   can be dropped (witnesses by computation), and for an 'initial' attribute of <scxml> with several targets the
-   engine's initial step is the one of Appendix D (descendants of all targets first) although it is not the one of
-   Spec.spec_run.  *)
+   can be dropped (witnesses by computation), and a document whose <scxml> 'initial' attribute has several deep
+   targets conforms (Spec.spec_run once entered the targets one by one; it now applies computeEntrySet's loop body to
+   the document's initial transition, as Appendix D does).  *)
 From V Require Import Base NameMatch NameMatchLemmas Chart Exec Large LargeLemmas Spec Interp WfCore SelectConform SelectConformLemmas SelectConformRoot
   MicroConform MicroConformFlatten Serialize LargeCacheLemmas
   RunConformBase RunConformInit RunConformStep RunConformLoop RunConformWitness LegalHistBase LegalHistEntry LegalHistWf
@@ -57,29 +57,35 @@ Qed.
 
 Definition static_i_parts_of (c : fchart) :=
   (wf_initb c, root_compoundb c, par_nonemptyb c, targets_antichainb c, done_okb c, root_silentb c,
-   (cpl_okb c, cpl_antib c, targets_properb c), (root_unmentionedb c, chart_named c, root_onexit_emptyb c), (root_plainb c, root_singleb c)).
+   (cpl_okb c, cpl_antib c, targets_properb c), (root_unmentionedb c, chart_named c, root_onexit_emptyb c), root_plainb c).
 
-(* <scxml initial="s3 s6"> with s6 not the default of its region: Spec.spec_run adds the default descendants of the
-   region before it looks at the second target (it enters s5 AND s6); the engine enters s6 only *)
+(* <scxml initial="s3 s6"> with s6 not the default of its region (once the witness that Spec.spec_run was not
+   Appendix D: it entered s5 AND s6): all hypotheses of run_conforms_initial hold, the engine enters s1 s2 s3 s4 s6 *)
 Definition iw_root_multi : tree :=
   TNode KScxml 0 (Some [3; 6]) [] [] [] []
     [TNode KParallel 1 None [] [] [] [] [TNode KState 2 None [] [] [] [] [leaf_st 3]; TNode KState 4 None [] [] [] [] [leaf_st 5; leaf_st 6]]].
 
-Lemma run_root_single_refuted :
-  exists late t evs fuel, let c := flatten late t in
-    static_i_parts_of c = (true, true, true, true, true, true, (true, true, true), (true, true, true), (true, false)) /\
-    run_guardb c evs fuel = true /\ run_completeb c evs fuel = true /\ views_differ late t evs fuel.
+Example run_root_multi_target_hypotheses :
+  let c := flatten false iw_root_multi in
+  static_ib c = true /\ run_guardb c [] 10 = true /\ run_completeb c [] 10 = true /\
+  spec_view 0 (fst (run_large lg_fixed ex_fixed false iw_root_multi [] 10)) =
+    [TMsB; TEb 1; TEe 1; TEb 2; TEe 2; TEb 3; TEe 3; TEb 4; TEe 4; TEb 6; TEe 6; TMsE; TCfg [1; 2; 3; 4; 6]].
+Proof. vm_compute. repeat split. Qed.
+
+(* an instance of run_conforms_initial (no computation of the Spec side) *)
+Theorem run_root_multi_target_conforms : forall fuel', (10 <= fuel')%nat ->
+  spec_view 0 (fst (run_large lg_fixed ex_fixed false iw_root_multi [] 10)) = spec_view 0 (fst (run_spec false iw_root_multi [] fuel')) /\
+  snd (run_large lg_fixed ex_fixed false iw_root_multi [] 10) = snd (run_spec false iw_root_multi [] fuel').
 Proof.
-  exists false, iw_root_multi, [], 10%nat.
-  split; [vm_compute; reflexivity|]. split; [vm_compute; reflexivity|]. split; [vm_compute; reflexivity|].
-  unfold views_differ. vm_compute. discriminate.
+  intros fuel' H. destruct run_root_multi_target_hypotheses as (A & B & C & _).
+  exact (run_conforms_initial_lemma false iw_root_multi A [] 10%nat B C fuel' H).
 Qed.
 
 (* an <initial> element below <scxml>: the engine runs its transition (T{ }T before the entries), Appendix D
    enters the targets of the document's initial transition without executing it *)
 Lemma run_root_initial_element_refuted :
   exists late t evs fuel, let c := flatten late t in
-    static_i_parts_of c = (true, true, true, true, true, true, (true, true, true), (true, true, true), (false, true)) /\
+    static_i_parts_of c = (true, true, true, true, true, true, (true, true, true), (true, true, true), false) /\
     run_guardb c evs fuel = true /\ run_completeb c evs fuel = true /\ views_differ late t evs fuel.
 Proof.
   exists false, (TNode KScxml 0 None [] [] [] [] [ini_el 20 120 [1] []; leaf_st 1]), [], 10%nat.
@@ -90,7 +96,7 @@ Qed.
 (* initial="s2 s5" with s5 below s2: Appendix D enters the default descendants of s2 (s4) and s5; the engine only s5 *)
 Lemma run_initial_attribute_antichain_refuted :
   exists late t evs fuel, let c := flatten late t in
-    static_i_parts_of c = (true, true, true, true, true, true, (true, false, true), (true, true, true), (true, true)) /\
+    static_i_parts_of c = (true, true, true, true, true, true, (true, false, true), (true, true, true), true) /\
     run_guardb c evs fuel = true /\ run_completeb c evs fuel = true /\ views_differ late t evs fuel.
 Proof.
   exists false,
@@ -105,7 +111,7 @@ Qed.
    after the onentry of the state with the attribute, the engine after the onentry of the element's parent *)
 Lemma run_initial_attribute_names_initial_refuted :
   exists late t evs fuel, let c := flatten late t in
-    static_i_parts_of c = (true, true, true, true, true, true, (false, true, true), (true, true, true), (true, true)) /\
+    static_i_parts_of c = (true, true, true, true, true, true, (false, true, true), (true, true, true), true) /\
     run_guardb c evs fuel = true /\ run_completeb c evs fuel = true /\ views_differ late t evs fuel.
 Proof.
   exists false,
@@ -119,7 +125,7 @@ Qed.
    engine takes the element's transition *)
 Lemma run_target_initial_element_refuted :
   exists late t evs fuel, let c := flatten late t in
-    static_i_parts_of c = (true, true, true, true, true, true, (true, true, false), (true, true, true), (true, true)) /\
+    static_i_parts_of c = (true, true, true, true, true, true, (true, true, false), (true, true, true), true) /\
     run_guardb c evs fuel = true /\ run_completeb c evs fuel = true /\ views_differ late t evs fuel.
 Proof.
   exists false,
@@ -129,46 +135,3 @@ Proof.
   split; [vm_compute; reflexivity|]. split; [vm_compute; reflexivity|]. split; [vm_compute; reflexivity|].
   unfold views_differ. vm_compute. discriminate.
 Qed.
-
-(* ---- <scxml initial="..."> with several targets: the engine against Appendix D's own order ---- *)
-
-Section AppD.
-Variable late : bool.
-Variable t0 : tree.
-Notation c := (flatten late t0).
-Notation r := (fs_sid (st c 0)).
-
-(* the initial step, for every document that satisfies the static conditions except root_singleb: the states the
-   engine enters, the executed content and the queues are those of interpret() up to the main event loop with
-   Appendix D's enterStates([doc.initial.transition]) (RunConformInitialInit.appendixD_init_eset) *)
-Theorem initial_step_conforms_appendixD_lemma l xl xs :
-  micro_static_ib c = true -> chart_named c = true -> root_plainb c = true -> ascb (fs_completion (st c 0)) = true ->
-  is_pristine l = true -> l_cfg l = [] -> l_initd l = [] -> HistOK c (l_hist l) -> same_dyn xl xs ->
-  let rl := large_step lg_fixed ex_fixed c l xl in
-  let q := spec_init_e c (appendixD_init_eset c) xs in
-  snd rl = RC_MICROSTEPPED /\
-  corr c (fst (fst rl)) (fst q) /\ s_hv (fst q) = [] /\ same_dyn (snd (fst rl)) (snd q) /\
-  exists d dg,
-    x_out (snd (fst rl)) = TMsE :: d ++ TEe r :: TEb r :: TMsB :: x_out xl /\
-    x_out (snd q) = spec_cfg_tok c (fst q) :: TMsE :: d ++ TDiag dg :: TMsB :: x_out xs.
-Proof.
-  intros Hms Hnamed Hpl Hasc Hp Hcfg0 Hinitd0 HH0 Hdyn.
-  pose proof (micro_static_sound late t0 Hms) as HS. pose proof (ms_wfh c HS) as W.
-  pose proof (initial_step_appendixD_sec c W (ms_nh c HS) (ms_cplok c HS) (ms_cplanti c HS) (ms_tganti c HS) Hnamed (ms_root c HS)
-                (root_plainb_sound c Hpl) (flatten_root_onentry late t0) (ms_silent c HS) (flatten_has_body late t0) (early_data_flat late t0)
-                (ms_par c HS) (ms_fin_par c HS) (ms_fin_up c HS) (ms_flags c HS) l xl xs Hp Hcfg0 Hinitd0 HH0 Hdyn (ascb_ssorted _ Hasc)) as HI.
-  cbn zeta in HI.
-  destruct (pristine_flags l Hp) as (F1 & F2 & F3 & F4 & F5).
-  cbn zeta. unfold large_step. rewrite F4, F3, Hp.
-  destruct (microstep lg_fixed ex_fixed c l (emit TMsB xl) (fs_completion (st c 0)) [] [] true) as [l1 x1].
-  cbn [fst snd] in *.
-  destruct HI as (C1 & Hhv & D1 & _ & _ & _ & _ & _ & HO).
-  split; [reflexivity|]. split; [exact C1|]. split; [exact Hhv|]. split; [exact D1 | exact HO].
-Qed.
-End AppD.
-
-(* it applies to the document on which Spec.spec_run differs *)
-Example appendixD_applies_to_root_multi :
-  let c := flatten false iw_root_multi in
-  micro_static_ib c = true /\ chart_named c = true /\ root_plainb c = true /\ ascb (fs_completion (st c 0)) = true /\ root_singleb c = false.
-Proof. vm_compute. repeat split. Qed.
